@@ -15,20 +15,28 @@ TRUST = ("Lean 4.33 kernel; axioms at most propext/Classical.choice/Quot.sound (
          "translate/batch_arith.py is trusted, and cross-checked by the correspondence); the container operations are a "
          "hand-written model (Model/Dataset.lean) tied to the C++ by the differential correspondence only (generator-bounded); ")
 MANIFEST = dict(
-  text=("Theorems (Props/C03.lean), for all sizes, batch sizes, partitions and operation histories: the machine-translated "
-        "optimalBatchSizes returns, for n>0 and m>0, ceil(n/m) batch sizes that sum to n, are each in [1,m] and differ by at most 1 "
-        "(and is undefined / empty for n=0: finding F1); every modelled structural operation (createFromRange, repartition, "
-        "splitBatch, splice, splitAtElement, append, push_back, indexedSubset+complement, reorderElements/shuffle, transform) maps the flat "
-        "element sequence as documented (identity / split / concatenation / gather by a permutation), keeps inputs and labels in the "
-        "same partitioning and never separates an input from its label; the DataElementIterator state machine (increment, decrement, "
-        "advance by any signed distance) lands on the canonical (batch, offset) for every partition into non-empty batches, so that "
-        "elements(), element(i), reverse iteration and batches() agree; batch sizes sum to numberOfElements. The model is tied to the real "
-        "Data/LabeledData/DataView code by an exact line-by-line correspondence over random operation histories on four element types "
-        "(unsigned, RealVector, CompressedRealVector, a user struct) under ASan/UBSan, plus an independent in-harness oracle that keeps a flat "
-        "std::vector beside every dataset."),
-  note=TRUST + "repartitionByClass / binarySubProblem / DataView / toDataset are modelled and exercised by the correspondence; their theorems are "
-       "listed in Props/C03.lean only as far as proved (see the file header); sharing of batches between datasets (shared_ptr) and the storage "
-       "layout of sparse batches are not modelled; WeightedDataset is not covered.",
+  text=("Theorems (Props/C03.lean, 35 obligations, re-proved on every run against the regenerated batch arithmetic), for all element types, "
+        "sizes, batch sizes, partitions and operation histories: (A) the machine-translated optimalBatchSizes is, for n>0 and m>0, inside defined "
+        "arithmetic and returns ceil(n/m) batch sizes that sum to n, lie in [1,m] and differ by at most 1; for n=0 it is either undefined "
+        "(division by zero, finding F1) or empty (repaired source) -- which one holds is evaluated and reported on every run; the copy of the "
+        "arithmetic in createDataFromRange agrees with it. (B) createDataFromRange, repartition, splitBatch, splice, append, push_back, "
+        "indexedSubset, transform and reorderElements map the flat element sequence exactly as documented (identity / split / concatenation / "
+        "image / gather), keep shape and partitioning as documented, and reorderElements with a permutation (shuffle) preserves the multiset. "
+        "(C) for every partition into non-empty batches the DataElementIterator state machine makes elements(), element(i) (= begin+i), reverse "
+        "iteration and batches() yield the same sequence; ++/-- are mutually inverse across batch borders; batch sizes sum to numberOfElements. "
+        "(D) LabeledData: createLabeledDataFromRange, repartition, splitBatch, append, reorderElements keep inputs and labels in the same "
+        "partitioning and never separate an input from its label (pair j of the result is pair idx[j] of the source). (E) every finite history of "
+        "repartition / splitBatch / reorderElements-by-permutation steps preserves well-formedness, non-empty batches and the multiset of "
+        "(input,label) pairs, and in every reachable state the access paths agree. The model is tied to the real Data/LabeledData/DataView code "
+        "by an exact line-by-line correspondence over random operation histories (24 operation kinds incl. splitAtElement, splice, append, "
+        "indexed subsets + complements, shuffle with the observed permutation, repartitionByClass, binarySubProblem, oneVersusRest, element-/batch-wise "
+        "transform, DataView subset/toDataset/subBatch, signed iterator jumps) on unsigned, RealVector, CompressedRealVector and user-struct "
+        "elements under ASan/UBSan, plus an independent in-harness oracle that keeps a flat std::vector beside every dataset."),
+  note=TRUST + "covered by the correspondence and the oracle only (modelled, no theorem yet): advance(n) from an arbitrary position with negative n, "
+       "splitAtElement, indexedSubset complement as a partition, repartitionByClass (sortedness), binarySubProblem, DataView/toDataset, "
+       "transformLabels/Inputs pairing, histories that move elements between datasets; sharing of batches between datasets (shared_ptr) and the "
+       "storage layout of sparse batches are not modelled; WeightedDataset is not covered. Findings F1, F9, F10 (findings_proposed/C03.md) make "
+       "the check print VIOLATION on the unrepaired tree.",
   technique="Lean 4 proofs (induction over partitions and operation histories) on a model whose batch arithmetic is regenerated from the C++ "
             "on every run + differential correspondence with the real containers (ASan/UBSan)",
   design="§6 C03")
@@ -221,7 +229,7 @@ def run(ctx):
     drv = ctx.driver("drv_c03")
     if not exe or not drv:
         return
-    ncases, maxlen = (120, 40) if ctx.quick else (700, 400)
+    ncases, maxlen = (120, 40) if ctx.quick else (300, 120)
     cases = dsgen.load_corpus("C03")
     ctx.cov["corpus_cases"] = len(cases)
     r = ctx.rng.fork("c03")
@@ -244,10 +252,10 @@ def run(ctx):
     z = dsgen.Model(drv); zr = z.send("zero"); z.close()
     ctx.cov["generated_optimalBatchSizes_at_zero"] = zr.split(" | ")[0]
     feed = os.path.join(core.VERIF, "tools", "obsfeed.py")
-    for ty, shape in TYPES:
+    for ty, shape in dsgen.types(TYPES, 'VERIF_C03_TYPES'):
         hcmd = [exe, ty]
         dcmd = [sys.executable, feed, RNG_OPS, exe, ty, "--", drv, *shape]
-        core.correspond(ctx, f"K-C03[{ty}]", cases, hcmd, dcmd, dsgen.classify)
+        core.correspond(ctx, f"K-C03[{ty}]", cases, hcmd, dcmd, dsgen.classify, env=dsgen.ASAN_ENV)
 
 
 def replay(ctx, rep):
